@@ -871,11 +871,35 @@ func runHistory(t *rapid.T) {
 		return
 	}
 	w.extend(t, rapid.IntRange(0, 12).Draw(t, "prefix"), rapid.Bool().Draw(t, "slowPrefix"))
-	forges, restarts, lower := 0, 0, 0
+	forges, restarts, lower, failedAttempts := 0, 0, 0, 0
 	steps := rapid.IntRange(3, 12).Draw(t, "steps")
 	lastForgeHeight := uint32(0)
 	for i := 0; i < steps; i++ {
-		switch rapid.SampledFrom([]string{"forge", "forge", "forge", "switch", "switch", "switch", "deleteTip", "extend", "restartGenerator", "restartGenerator"}).Draw(t, "action") {
+		switch rapid.SampledFrom([]string{"forge", "forge", "forge", "switch", "switch", "switch", "deleteTip", "extend", "restartGenerator", "restartGenerator", "failedAttempt"}).Draw(t, "action") {
+		case "failedAttempt":
+			// A forging attempt that the application aborts half way (error in a block hook): no header is signed or handed on, so
+			// it is NOT a generated height - the next header of this generator must still report the largest height it really signed
+			// (seeded change C15-w made the provisional record durable before the block was built). The assertion itself is the
+			// one every forge makes (maxHeightGenerated == largest height signed before).
+			tip := w.n.Tip().Header
+			if w.n.SlotOf(tip.Timestamp) >= w.n.Cfg.SlotsBehind {
+				break
+			}
+			at := rapid.SampledFrom([]string{"before", "after"}).Draw(t, "attemptFailsAt")
+			saved := w.n.ABI.InsertAssetsFn
+			w.n.ABI.InsertAssetsFn = func(h uint32) []*blockchain.BlockAsset {
+				return []*blockchain.BlockAsset{node.ScriptAsset(node.Script{Salt: h, FailAt: at})}
+			}
+			w.last = nil
+			w.gen.VerifForge()
+			w.n.ABI.InsertAssetsFn = saved
+			if w.last != nil {
+				// the application refused the block in a hook, yet a block came out: it cannot be valid for this node
+				w.fail("forging attempt whose %s-transactions hook failed still produced a block at height %d", at, w.last.Header.Height)
+			}
+			w.hist = append(w.hist, fmt.Sprintf("forging attempt on tip h=%d aborted by the application (%s-transactions hook fails)", tip.Height, at))
+			evid.R.Label("forging-attempt-aborted-by-the-application", 1)
+			failedAttempts++
 		case "switch":
 			// move to a better, shorter chain: remove blocks down to a drawn depth, then let the other validators build an
 			// honest branch until its maxHeightPrevoted exceeds the one of the latest published forged header
@@ -927,6 +951,9 @@ func runHistory(t *rapid.T) {
 	}
 	if lower > 0 {
 		labels = append(labels, "forged-at-lower-height")
+	}
+	if failedAttempts > 0 {
+		labels = append(labels, "with-aborted-forging-attempt")
 	}
 	evid.R.Case(strings.Join(w.hist, "|"), forges >= 3 && restarts >= 1 && lower >= 1, func() any {
 		return map[string]any{"kind": "history", "actions": w.hist, "forges": forges}
